@@ -50,6 +50,10 @@ type Case struct {
 	// Subber: number of Sub() calls a background goroutine makes while the script runs (its subscriptions drain
 	// from the start; what they must / may / must not receive follows from invocation-response stamps)
 	Subber int `json:"subber,omitempty"`
+	// SubberUnsub: the background goroutine also unsubscribes its own subscriptions again while the script runs.
+	// Only generated for scripts whose publishes are all Sync variants (they hold the lock while sending, so a
+	// concurrent Unsub must simply wait; with asynchronous variants this is the known finding).
+	SubberUnsub bool `json:"subber_unsub,omitempty"`
 	// Racy: do NOT settle in-flight asynchronous sends before Unsub/UnsubAll (known-finding class; child process only)
 	Racy bool `json:"racy,omitempty"`
 }
@@ -367,9 +371,10 @@ func Run(c Case) pbt.Outcome {
 	var clock atomic.Int64
 	stamp := func() int64 { return clock.Add(1) }
 	type bgSub struct {
-		s         *subscriber
-		inv, resp int64
-		removedAt int64
+		s                   *subscriber
+		inv, resp           int64
+		unsubInv, unsubResp int64 // 0 = still subscribed
+		unsubErr            error
 	}
 	type pubRec struct {
 		inv, resp int64
@@ -395,6 +400,22 @@ func Run(c Case) pbt.Outcome {
 				bg = append(bg, &bgSub{s: s, inv: inv, resp: resp})
 				bgMu.Unlock()
 			}
+			if c.SubberUnsub {
+				bgMu.Lock()
+				mine := append([]*bgSub(nil), bg...)
+				bgMu.Unlock()
+				for i, b := range mine {
+					for k := 0; k < 3+i*5; k++ {
+						runtime.Gosched()
+					}
+					inv := stamp()
+					err := w.ps.Unsub(b.s.ch)
+					resp := stamp()
+					bgMu.Lock()
+					b.unsubInv, b.unsubResp, b.unsubErr = inv, resp, err
+					bgMu.Unlock()
+				}
+			}
 		}()
 		defer func() {
 			<-bgDone
@@ -412,13 +433,15 @@ func Run(c Case) pbt.Outcome {
 		for _, b := range bg {
 			for _, p := range pubs {
 				switch {
-				case b.removedAt != 0 && p.inv > b.removedAt:
+				case b.unsubResp != 0 && p.inv > b.unsubResp:
 					// published after it was removed: must not arrive
-				case p.inv > b.resp:
+				case p.resp < b.inv:
+					// published before it subscribed: must not arrive
+				case p.inv > b.resp && (b.unsubInv == 0 || p.resp < b.unsubInv):
 					for _, ev := range p.evs {
 						b.s.expect[ev] = true
 					}
-				case p.resp > b.inv:
+				default:
 					for _, ev := range p.evs {
 						b.s.optional[ev] = true
 					}
@@ -644,7 +667,7 @@ func Run(c Case) pbt.Outcome {
 				<-bgDone
 				bgExpect()
 				for _, b := range bg {
-					if b.removedAt == 0 {
+					if b.unsubResp == 0 {
 						victims = append(victims, b.s)
 					}
 				}
@@ -730,8 +753,8 @@ func Run(c Case) pbt.Outcome {
 			if st.K == "unsuball" {
 				at := stamp()
 				for _, b := range bg {
-					if b.removedAt == 0 {
-						b.removedAt = at
+					if b.unsubResp == 0 {
+						b.unsubInv, b.unsubResp = at, at
 					}
 				}
 			}
@@ -762,6 +785,13 @@ func Run(c Case) pbt.Outcome {
 	bgExpect()
 	for _, b := range bg {
 		w.subs = append(w.subs, b.s)
+		if b.unsubErr != nil {
+			return fail("concurrent Unsub of background subscriber %d returned %v, want nil", b.s.idx, b.unsubErr)
+		}
+		if c.SubberUnsub {
+			b.s.live = false
+			w.labels["concurrent-unsub-vs-sync-publish"] = true
+		}
 	}
 	if len(bg) > 0 {
 		w.labels["background-subscriber"] = true
@@ -960,6 +990,17 @@ func genCase(t *rapid.T) Case {
 		c.Steps = append(c.Steps, Step{K: "sub", Buf: rapid.SampledFrom([]int{-1, 0, 1, 2, 5}).Draw(t, "buf"), Recv: rapid.SampledFrom([]string{"drain", "drain", "gated", "never"}).Draw(t, "recv")})
 	}
 	c.Steps = append(c.Steps, pbt.OpsOf(t, rapid.Custom(genStep), []int{1, 3, 6, 10}, "steps")...)
+	if c.Subber > 0 && rapid.IntRange(0, 2).Draw(t, "subberunsub") == 0 {
+		c.SubberUnsub = true
+		for i := range c.Steps {
+			switch c.Steps[i].Variant {
+			case "Pub", "PubWait":
+				c.Steps[i].Variant = "PubSync"
+			case "PubSlice", "PubSliceWait":
+				c.Steps[i].Variant = "PubSliceSync"
+			}
+		}
+	}
 	return c
 }
 
